@@ -79,6 +79,7 @@ func (m c10) undo(c *fw.Ctx, kind string, tab []gts.Feature, hostB []byte, gtab 
 		c.ViolateX("undo:"+panicClass(site, val), enc, "no panic", fmt.Sprint(val), stack, nil)
 		return
 	}
+	c.Hold(enc, func() string { return heldSeq(res) })
 	if !bytes.Equal(res.Bytes(), hostB) {
 		c.Violate("undo:"+op+":residues", enc, string(hostB), string(res.Bytes()))
 		return
@@ -160,6 +161,7 @@ func (m c10) cut(c *fw.Ctx, kind string, tab []gts.Feature, hostB []byte, cuts [
 		c.ViolateX("cut:"+panicClass(site, val), enc, "no panic", fmt.Sprint(val), stack, nil)
 		return
 	}
+	c.Hold(enc, func() string { return heldSeq(res) })
 	if !bytes.Equal(res.Bytes(), hostB) {
 		c.Violate("cut:residues", enc, string(hostB), string(res.Bytes()))
 		return
